@@ -6,9 +6,12 @@ cd /repo || exit 2
 git diff --quiet || { echo "/repo not clean"; exit 2; }
 git apply /verif/seeded/$id/patch.diff || { echo "patch does not apply"; exit 2; }
 cd /verif
+# evidence files must only ever describe runs on the unchanged tree: keep them aside
+rm -rf /root/scratch/evidence_keep; cp -r /verif/evidence /root/scratch/evidence_keep
 for s in $seeds; do for p in $props; do
   out=$(VERIF_SEED=$s VERIF_TIER=$tier timeout 3000 /venv/bin/python -m checks.run $p 2>&1); rc=$?
   echo "seeded=$id check=$p seed=$s tier=$tier rc=$rc"
   echo "$out" | grep -E "^\[$p\] violation" | cut -c1-500 | head -3
 done; done
 git -C /repo checkout -- . ; rm -f /verif/replays/*.json
+rm -rf /verif/evidence; cp -r /root/scratch/evidence_keep /verif/evidence
